@@ -11,6 +11,7 @@ import (
 	"fmt"
 	"hash/fnv"
 	"os"
+	"os/exec"
 	"path/filepath"
 	"runtime"
 	"runtime/debug"
@@ -153,6 +154,87 @@ func Main(id, level string, run func(c *Ctx), replay ReplayFunc) {
 	os.Exit(c.Finish())
 }
 
+// ---- progress watchdog
+//
+// A change to the code under test can make a call block or spin for ever.  The Go runtime would end
+// the harness with "all goroutines are asleep" (or it would run for ever); neither says which case
+// does not return.  A worker therefore announces the case it is about to evaluate with Doing; when no
+// evaluation has completed for a minute, every announced case is re-run alone in a child process
+// (this binary, --replay), and one that is still running after another minute is reported as a
+// violation of class "hang".  The clock only nominates; the verdict is the isolated re-run.
+
+type doing struct{ input interface{} }
+
+var (
+	inflight  sync.Map // worker / shard index -> doing; Parallel forgets a shard when it is finished
+	watchOnce sync.Once
+)
+
+// Doing announces that worker slot is about to evaluate input.
+func (c *Ctx) Doing(slot int, input interface{}) {
+	inflight.Store(slot, doing{input})
+	watchOnce.Do(func() {
+		if c.Tier == "quick" || c.Tier == "thorough" {
+			go c.watchdog()
+		}
+	})
+}
+
+func (c *Ctx) watchdog() {
+	last, stalled := int64(-1), 0
+	for {
+		time.Sleep(5 * time.Second)
+		if n := c.evals.Load(); n != last {
+			last, stalled = n, 0
+			continue
+		}
+		if stalled++; stalled < 12 {
+			continue
+		}
+		dir := os.Getenv("VERIF_WORK")
+		if dir == "" {
+			dir = os.TempDir()
+		}
+		var stuck []doing
+		inflight.Range(func(_, v interface{}) bool {
+			if d, ok := v.(doing); ok && d.input != nil && len(stuck) < 64 {
+				stuck = append(stuck, d)
+			}
+			return true
+		})
+		// the probes run side by side (a hang usually stops every worker on a case of the same kind)
+		var pw sync.WaitGroup
+		for i, d := range stuck {
+			raw, _ := json.Marshal(d.input)
+			data, _ := json.Marshal(Violation{Property: c.ID, Class: "probe", Message: "progress watchdog probe", Input: raw})
+			f := filepath.Join(dir, fmt.Sprintf("probe-%d.json", i))
+			if os.WriteFile(f, data, 0o644) != nil {
+				continue
+			}
+			cmd := exec.Command(os.Args[0], "--replay", f)
+			if cmd.Start() != nil {
+				continue
+			}
+			pw.Add(1)
+			go func(d doing) {
+				defer pw.Done()
+				defer os.Remove(f)
+				fin := make(chan error, 1)
+				go func() { fin <- cmd.Wait() }()
+				select {
+				case <-fin:
+				case <-time.After(60 * time.Second):
+					cmd.Process.Kill()
+					c.Fail("hang", d.input, "the case does not return: no evaluation completed for 60 s, and a separate process running only this case was still running after 60 s")
+				}
+			}(d)
+		}
+		pw.Wait()
+		c.NotExhaustive("progress watchdog fired; the run was abandoned after examining the in-flight cases")
+		os.Exit(c.Finish())
+	}
+}
+
 // Workers is the degree of parallelism used by Parallel.
 func Workers() int {
 	if s := os.Getenv("VERIF_WORKERS"); s != "" {
@@ -185,6 +267,7 @@ func Parallel(n int, fn func(shard int)) {
 					return
 				}
 				fn(s)
+				inflight.Delete(s)
 			}
 		}()
 	}
